@@ -191,6 +191,14 @@ end Sys
 
 /-! ### operations and histories -/
 
+/-- item assignment on a triple of flags (`pbc[axis] = v`); any other index leaves it as it is. -/
+def setAxis (p : V3 Bool) (axis : Nat) (v : Bool) : V3 Bool :=
+  match axis with
+  | 0 => ⟨v, p.y, p.z⟩
+  | 1 => ⟨p.x, v, p.z⟩
+  | 2 => ⟨p.x, p.y, v⟩
+  | _ => p
+
 inductive Op (K : Type) where
   /-- `system.atoms_prop('pos', scale=True)` -/
   | spos
@@ -208,6 +216,10 @@ inductive Op (K : Type) where
   | setOrigin (o : V3 K)
   /-- `system.pbc = p` -/
   | setPbc (p : V3 Bool)
+  /-- `system.pbc[axis] = v`: the periodicity setting edited IN PLACE through the array the getter hands out (or
+      through the caller's own array that was handed to the constructor / the setter and is kept); no setter runs.
+      `axis` is 0, 1 or 2 (numpy raises `IndexError` otherwise: the driver rejects such a line) -/
+  | editPbc (axis : Nat) (v : Bool)
   /-- `system.atoms.pos = p` / `atoms_prop('pos', value=p)` / an in-place edit of the position array: the
       Cartesian positions are replaced (same number of atoms), the box and its cache are not touched -/
   | setPos (p : List (V3 K))
@@ -237,6 +249,7 @@ def stepC (P : Params K) (c : CSys K) : Op K → CSys K × Obs K
   | .setVects v => (c.setVects P.tiny v, .unit)
   | .setOrigin o => (c.setOrigin o, .unit)
   | .setPbc p => ({ c with pbc := p }, .unit)
+  | .editPbc k v => ({ c with pbc := setAxis c.pbc k v }, .unit)
   | .setPos p => ({ c with pos := p }, .unit)
 
 /-- the same operation in the functional reading. -/
@@ -255,6 +268,7 @@ def step (P : Params K) (s : Sys K) : Op K → Sys K × Obs K
   | .setVects v => (s.setBox P.tiny v s.box.origin, .unit)
   | .setOrigin o => ({ s with box := ⟨s.box.vects, o⟩ }, .unit)
   | .setPbc p => ({ s with pbc := p }, .unit)
+  | .editPbc k v => ({ s with pbc := setAxis s.pbc k v }, .unit)
   | .setPos p => ({ s with pos := p }, .unit)
 
 /-- a history: the final object and everything observed on the way. -/
